@@ -5,12 +5,15 @@ PROP = dict(
         "Shangrla.C15.exists_isMaxDiff", "Shangrla.C15.raire_optimal_total",
         "Shangrla.Raire.leaf_leOPT", "Shangrla.Raire.exit_all_leOPT", "Shangrla.Raire.compute_spec",
         "Shangrla.Raire.mainLoop_spec",
+        # outside the property (agap > 0): what optimality degrades to
+        "Shangrla.Raire.le_maxEst", "Shangrla.Raire.computeG_near_opt", "Shangrla.C15.raire_near_optimal_gap",
     ],
     groups={"raire": (3000, 120000)},
     design_ref="DESIGN.md section 5, C15; Appendix F (O1-O3)",
     assumptions=[
         "agap = 0; fuelled model with termination proved (Shangrla.C04.raire_terminates); candidates duplicate-free, at least two; "
         "difficulty comparison a lawful total preorder; proved for every difficulty function (monotonicity in the margin "
-        "is not needed)",
+        "is not needed); for agap > 0 (outside the property) raire_near_optimal_gap: the result is a competing set whose "
+        "largest difficulty is within the gap test of a lower bound of the optimum",
     ],
 )
